@@ -33,6 +33,57 @@ CLAIMS = {
    text="Structural necessary conditions of C06 decided statically: (a) after a candidate-limit test fires, every return carries IsComplete == false; (a2) with completion hooks registered, every return of value completion is incomplete; (b) the value compared with maxCandidates is a dedicated counter initialised to len(list)/0-on-empty, advanced after every single append, re-initialised after bulk appends, and appends are dominated by the test; (c) no NewText of a TextEdit/CompletionData literal derives from snippet text; (d) every CompletionData literal returns the nested data's NextPlaceholder or counter+number-of-tab-stops, and nested data is requested with the threaded counter.",
    note="Does not decide: that the edit range starts at/before and reaches the cursor (position values; partially covered under C02), numbering inside non-constant formats, the exact bound value, behaviour of user hooks.",
    ref="DESIGN.md §3 C06, Appendix A"),
+
+ "C02": dict(
+   technique="static analysis: position-arithmetic rules over every hcl.Range/hcl.Pos construction and mutation in the completion code (go/types + go/cfg dominance): endpoint ordering, byte-vs-column agreement, derivation of edit ranges from the cursor",
+   text="Structural necessary conditions of C02 decided statically for every range built or changed in the completion paths: (a) a range whose End is set to the cursor has its Start proved at or before the cursor on every CFG path (dominating ContainsPos/ordering test or Start derived from the cursor by a non-negative byte count); (b) when Column and Byte of one position are shifted, both are shifted by the same expression, and that expression is not a byte length applied as a column count over text that may contain multi-byte characters or newlines; (c) every TextEdit range literal is derived from the cursor or from a parser range that contains it. Decides the mechanism of range construction, not the filtered candidate set.",
+   note="Known findings (9 sites) are listed in known_findings.json: edit ranges whose Start is not proved before the cursor, and byte-length used as column shift. Prefix filtering (case-sensitive HasPrefix) is checked under C07/C08/C15 rows, not here. Unicode column semantics beyond byte/column agreement are not decided.",
+   ref="DESIGN.md §2 E6, §3 C02"),
+ "C07": dict(
+   technique="static analysis: obligation rows (emission site => dominating guard set, with 'no extra data filter' exactness) decided on go/cfg with condition decomposition, over body/attribute/block/label candidate emission",
+   text="Structural necessary conditions of C07 decided statically through a reviewed table of rows: each candidate emission in body completion (attribute candidates, block candidates, label candidates, dependent-body candidates) is reached only across the guards the property names (attribute still declarable: not read-only and not already present; block below a non-zero MaxItems and no attribute of that name; prefix match; label carried by a dependent-body key at that index; descent only into known blocks containing the cursor with the merged schema) and across no other data-dependent filter; iteration covers the whole schema map; results are sorted before return. Row population minima make the check fail when an anchor moves.",
+   note="Rows are a reviewed specification of the guards (see checker/e1_tables.go, one reason per row); the check decides guard presence/absence on all CFG paths, not the values the guards compute.",
+   ref="DESIGN.md §2 E1, §3 C07"),
+ "C08": dict(
+   technique="static analysis: obligation rows over value-completion emission sites, constraint->expression dispatch totality (go/types enumeration of Constraint implementers vs newExpression switch), who-may-call rule for candidate constructors, cross-file range-compare rule",
+   text="Structural necessary conditions of C08 decided statically: every value candidate emission (bool/keyword/function/reference/type candidates) is guarded by the prefix test and exactly the visibility/constraint guards the property names; reference visibility predicates (localTargetMatches/absTargetMatches) return true only across all of prefix, self-gating, block-local range and constraint match; every schema.Constraint implementer is dispatched by newExpression to an expression type implementing the completion capability; candidate literals of each kind are built only in their owning function; byte-offset range comparisons between targets and origins are preceded by a Filename equality.",
+   note="One known finding (Target.Address compares ranges across files without a filename test). Does not decide the content of candidate text or type-conversion results.",
+   ref="DESIGN.md §2 E1/E7, §3 C08"),
+ "C09": dict(
+   technique="static analysis: obligation rows over target emission sites; TargetContext threading rules (field agreement of every Target literal with its context, child context = Copy()+exactly one loop-keyed step with equal local step, element ranges derived from the element, no store through a shared *hcl.Range); append-alias/ownership engine; Copy coverage engine; map-order engine",
+   text="Structural necessary conditions of C09 decided statically: every target emission in decodeReferenceTargetsForBody/ForAttribute and the per-constraint ReferenceTargets methods is reached exactly across the schema marks the property names (known block/attribute, resolvable address, AsReference/AsTypeOf/BodyAsData/DependentBodyAsData+successful lookup/SupportUnknownNestedRefs/TargetableAs, AsExprType+known type); every reference.Target literal built from a TargetContext takes Addr, LocalAddr, ScopeId, TargetableFromRangePtr, DefRangePtr and RangePtr from that context; each child context is a Copy() of its parent extended by exactly one step on every path, the step's key derives from the loop's own index/key, and ParentLocalAddress receives the same step; element ranges derive from the element through selectors and pure range accessors only; no append result aliases another live address; BlockAddrSchema/AttributeAddrSchema Copy methods keep every field; results are sorted after the last append.",
+   note="Two known findings (first list/map element's range is widened through a shared pointer). Does not decide inferred cty types value-by-value, nor that source order equals index order beyond the loop-index derivation.",
+   ref="DESIGN.md §3 C09"),
+ "C10": dict(
+   technique="static analysis: obligation rows over origin emission sites, expression capability table (go/types: which expression types implement ReferenceOriginsExpression vs which constraints may hold references), child-coverage of expression walkers, map-order engine",
+   text="Structural necessary conditions of C10 decided statically: origins are collected only for attributes the schema knows; path/direct origins are emitted exactly under the schema marks the property names; self.* origins only where the body schema enables SelfRefs; block descent uses the merged schema; OneOf de-duplication merges only on equal address and range; implied origins only on equal address; results are sorted by file and position after the last append; every expression type whose constraint can contain references implements the origins capability and forwards to each child expression it holds.",
+   note="Does not decide the content of traversal-to-address conversion nor constraint sets value-by-value.",
+   ref="DESIGN.md §2 E1/E7, §3 C10"),
+ "C11": dict(
+   technique="static analysis: obligation rows showing both resolution directions call the one shared predicate Target.Matches with no additional filter; cross-file range-compare rule in package reference",
+   text="Structural necessary conditions of C11 decided statically: go-to-definition (Targets.Match) and find-references (Origins.Match, ReferenceOriginsTargetingPos) collect exactly the pairs for which the same Target.Matches(origin) holds plus path equality, with no other data filter between the predicate and the append; find-references descends into nested targets; path origins resolve only in their target path; block-local gating lives inside the shared predicate; byte-offset containment between ranges of possibly different files is preceded by a Filename test.",
+   note="One known finding (Target.Address). Symmetry is decided as 'same predicate, no extra filter', not by evaluating the predicate.",
+   ref="DESIGN.md §2 E1, §3 C11"),
+ "C12": dict(
+   technique="static analysis: containment induction over every HoverData literal (range derives from an AST node whose range was tested to contain the cursor), obligation rows for attribute/block/label hover, child-coverage of hover walkers",
+   text="Structural necessary conditions of C12 decided statically: every HoverData returned from the hover paths carries a Range derived from a syntax node for which a dominating ContainsPos/ContainsOffset(pos) test holds on every CFG path (induction over the recursive descent); unknown attribute/block errors are produced exactly when the schema lacks the item; label hover only for declared labels; descent into a block uses the merged schema; every expression hover implementation forwards to each child expression it holds.",
+   note="One known finding (index expression collection not descended). Hover content text is not decided.",
+   ref="DESIGN.md §2 E8, §3 C12"),
+ "C13": dict(
+   technique="static analysis: obligation rows over token emission sites, token type table agreement (constants used in literals vs lang.SupportedSemanticTokenTypes), search-loop-continues rule, child-coverage of token walkers, append-alias and map-order engines",
+   text="Structural necessary conditions of C13 decided statically: every semantic-token emission is guarded by the schema marks the property names (known attribute/block/label, dependency-key modifier only for dep keys, reference tokens only for resolved targets); every token Type constant used in a SemanticToken literal is an element of lang.SupportedSemanticTokenTypes; loops that search targets for a reference continue past non-matching candidates; every expression token implementation forwards to each child expression; tokens are sorted after the last append; no append aliases another token slice.",
+   note="One known finding (index expression collection). Token ranges are checked for derivation from syntax nodes, not for pairwise disjointness by value.",
+   ref="DESIGN.md §2 E1/E7, §3 C13"),
+ "C15": dict(
+   technique="static analysis: obligation rows over validator diagnostics emission + walker/validator kind pairing (type assertions justified by the walker's dispatch)",
+   text="Structural necessary conditions of C15 decided statically: each built-in validator emits its diagnostic exactly under the schema condition the property names (deprecated, missing required, unexpected attribute/block, label count, MinItems/MaxItems) and across no other data filter; type assertions in validators are justified by the walker's dispatch (kind pairing); the walker marks bodies without schema and blocks with failed/partial dependent lookups as unknown-schema (which silences the 'unexpected' validators) and validates known block bodies against the merged schema.",
+   note="Diagnostic text and ranges are not decided beyond derivation from the offending node.",
+   ref="DESIGN.md §2 E1, §3 C15"),
+ "C18": dict(
+   technique="static analysis: the C02 position-arithmetic rules (E6) restricted to recovery paths plus decoder-state who-may-call rule",
+   text="Structural necessary conditions of C18 decided statically: in the byte-recovery paths used for incomplete configuration (recoverLeftBytes, trimmed/prefix ranges), every range whose end is moved to the cursor keeps Start at or before End on all CFG paths, byte and column are shifted consistently, and no decoder-level state is written while answering a query on a partially parsed file.",
+   note="Shares E6 and its 9 known findings with C02. Does not decide what the parser recovers for a given broken input.",
+   ref="DESIGN.md §2 E6, §3 C18"),
 }
 NA = {}
 ALL = ["C%02d" % i for i in range(1, 21)]
